@@ -1,5 +1,6 @@
 import Driver.Util
 import NixModel.Pure.Validator
+import NixModel.Generated.ValidatorGuards
 open Lean Nix.Validator Nix.Validator.Gen
 
 /-!
@@ -7,6 +8,12 @@ Driver for C14.  One line = `["validate", <file description>]`; the answer is
 `{"ok": [[kind, [path…], [msg…]], …]}` (the entries of `results["errors"]` in insertion order) or
 `{"err": <class>}` when an API read raises.  A message is `[id]`, `[id, idx]`, `[id, idx, value]`,
 `["feature", i, id]` or `["property", i, id]`.
+
+`["guards", <function>, {<read path>: <value>, …}]` evaluates the conditions of that function's report sites as compiled
+from the source (`Generated/ValidatorGuards.lean`) under `PyGuard.eval`, the reads returning the given Python values
+(`null`, `["bool", b]`, `["int", n]`, `["rat", "n/d"]`, `["str", s]`, `["rats", […]]`, `["strs", […]]`, `["ints", […]]`,
+`["strss", [[…]]]`, `["sized", n]`, `["enum", name]`; a path that is absent reads as `None`); the answer is the list of
+identifiers whose site fires, in source order, or `{"err": <class>}`.
 -/
 namespace Driver.C14
 
@@ -163,6 +170,34 @@ def entryJson (km : Key × List Msg) : Json :=
   Json.arr #[Json.str (kindStr km.1.kind), Json.arr (km.1.path.map fun (n : Nat) => Json.num (Int.ofNat n)).toArray,
              Json.arr (km.2.map msgJson).toArray]
 
+open Nix.PyGuard in
+def pyVal (j : Json) : P Val :=
+  match j with
+  | .null => .ok .none
+  | .arr a =>
+    match a.toList with
+    | [.str "bool", v] => return .bool (← bool v)
+    | [.str "int", v] => return .int (← int v)
+    | [.str "rat", v] => return .rat (← rat v)
+    | [.str "str", v] => return .str (← str v)
+    | [.str "rats", v] => return .rats (← (← arr v).mapM rat)
+    | [.str "strs", v] => return .strs (← (← arr v).mapM str)
+    | [.str "ints", v] => return .ints (← (← arr v).mapM int)
+    | [.str "strss", v] => return .strss (← (← arr v).mapM fun x => do (← arr x).mapM str)
+    | [.str "sized", v] => return .sized (← nat v)
+    | [.str "enum", .str n] => return .enum n
+    | _ => .error "bad python value"
+  | _ => .error "bad python value"
+
+open Nix.PyGuard in
+/-- the environment a JSON object of read paths describes -/
+def guardEnv (j : Json) : P (Read → Val) := do
+  let vals ← Read.all.mapM fun r =>
+    match j.getObjVal? r.path with
+    | .ok v => do return (r, ← pyVal v)
+    | .error _ => return (r, Val.none)
+  return fun r => (vals.lookup r).getD .none
+
 def handle (j : Json) : Json :=
   match jArr j |>.toList with
   | [Json.str "validate", d] =>
@@ -171,6 +206,14 @@ def handle (j : Json) : Json :=
     | .ok f =>
       match validate f with
       | .ok rs => ok (Json.arr (rs.map entryJson).toArray)
+      | .error e => err e
+  | [Json.str "guards", Json.str fn, e] =>
+    match guardTable.lookup fn, guardEnv e with
+    | none, _ => bad s!"C14: no compiled guards for {fn}"
+    | _, .error m => bad s!"C14: {m}"
+    | some sites, .ok env =>
+      match Nix.PyGuard.fired env sites with
+      | .ok ids => ok (Json.arr (ids.map fun m => Json.str m.name).toArray)
       | .error e => err e
   | [Json.str "catalogue"] =>
     ok (Json.arr (MsgId.all.map fun m =>
